@@ -365,3 +365,14 @@ func EqualSums(a, b map[string]*big.Int) (string, bool) {
 	}
 	return "", true
 }
+
+// Normalise converts what the public API returned into a Real.
+func Normalise(res numscript.ExecutionResult, err numscript.InterpreterError) Real {
+	var out Real
+	if err != nil {
+		normalise(res, err, &out)
+	} else {
+		normalise(res, nil, &out)
+	}
+	return out
+}
